@@ -336,6 +336,11 @@ func catalogue() []variantSpec {
 	}
 	vs = append(vs, variantSpec{"cp-forge", "", []int{2, 5}, 1, false}, variantSpec{"cp-forge", "", []int{2}, 1, false})
 	for _, f := range relayHeaderKinds {
+		if strings.HasPrefix(f, "low-work") {
+			// a header that misses its target needs a target that can be missed: hard-target regimes first
+			vs = append(vs, variantSpec{"relay-header", f, []int{3, 4, 5, 2, 1, 0}, 0, false})
+			continue
+		}
 		vs = append(vs, variantSpec{"relay-header", f, any6, 0, false})
 	}
 	for _, f := range relayOutlineKinds {
